@@ -12,6 +12,20 @@ SEEDED = os.path.join(VERIF, 'seeded')
 ids = sys.argv[1:] or sorted(d for d in os.listdir(SEEDED)
                              if os.path.isdir(os.path.join(SEEDED, d)))
 results = {}
+
+
+def _save(results):
+    rp = os.path.join(VERIF, 'seeded', 'RESULTS.json')
+    allres = {}
+    if os.path.exists(rp):
+        try:
+            allres = json.load(open(rp))
+        except Exception:
+            allres = {}
+    allres.update(results)
+    json.dump(allres, open(rp, 'w'), indent=1, sort_keys=True)
+
+
 for sid in ids:
     d = os.path.join(SEEDED, sid)
     meta = json.load(open(os.path.join(d, 'meta.json')))
@@ -49,6 +63,7 @@ for sid in ids:
         subprocess.call(['git', '-C', '/repo', 'worktree', 'remove',
                          '--force', wt])
         shutil.rmtree(wt + '-out', ignore_errors=True)
+    _save(results)
     print('%s: %s (exit %s, %d VIOLATION lines, %.0fs) %s' % (
         sid, 'CAUGHT' if results[sid]['caught'] else 'MISSED',
         results[sid]['exit'], results[sid]['violations'],
